@@ -30,6 +30,11 @@ type c14Scenario struct {
 	API    func() error // activity 0
 	Poll   func() error // activity 1
 	Closer func()
+	// a schedule left both activities parked for good: the node cannot be used (or closed) any more
+	poisoned         bool
+	deadlock         string
+	deadlockReported bool
+	hungReported     bool
 }
 
 // logicalState is the canonical, id/time-masked content the property speaks about.
@@ -83,6 +88,9 @@ func (s *c14Scenario) reset() {
 
 // runSchedule executes both activities under a baton plan and returns the final logical state.
 func (s *c14Scenario) runSchedule(first int, plan []int) (final string, trace string, preempt int, errs [2]error, hung bool) {
+	if s.poisoned {
+		return "", "", 0, errs, true
+	}
 	s.reset()
 	b := sched.NewBaton(first, plan)
 	gate := func(op, key string, val []byte) string { b.Point(); return "" }
@@ -105,12 +113,17 @@ func (s *c14Scenario) runSchedule(first int, plan []int) (final string, trace st
 	go run(1, s.Poll)
 	done := make(chan struct{})
 	go func() { wg.Wait(); close(done) }()
-	select {
-	case <-done:
-		b.Stop()
-	case <-time.After(20 * time.Second):
-		b.Stop()
-		hung = true
+	dead, stacks, hung := b.AwaitOrDeadlock(done, 30*time.Second)
+	b.Stop()
+	if dead {
+		// both activities are parked on locks of the node for good: the goroutines (and the locks they
+		// hold) cannot be recovered, the scenario's node is not usable any more
+		s.poisoned = true
+		s.deadlock = stacks
+		return "", string(b.Trace), b.Preemptions, errs, true
+	}
+	if hung {
+		s.poisoned = true
 		return
 	}
 	s.V.State.SetGate(nil)
@@ -148,7 +161,11 @@ func checkC14(c *Ctx) {
 			c.Inconclusive("scenario %d: %v", bi, err)
 			return
 		}
-		defer s.Closer()
+		defer func() {
+			if !s.poisoned {
+				s.Closer()
+			}
+		}()
 		ser0, pts := s.serial(0)
 		ser1, _ := s.serial(1)
 		// serial runs must be deterministic, otherwise the comparison is meaningless
@@ -162,8 +179,20 @@ func checkC14(c *Ctx) {
 			final, trace, pre, errs, hung := s.runSchedule(first, plan)
 			runs++
 			c.Eval(1)
+			if hung && s.deadlock != "" {
+				if !s.deadlockReported {
+					s.deadlockReported = true
+					bad++
+					c.Violate("C14/deadlock:"+s.Name, fmt.Sprintf("scenario %s: under schedule first=%d plan=%v the API request and the poll step end up parked on each other's locks for good (every unfinished activity in a mutex wait, no scheduling point reached any more): neither takes effect, which equals neither serial order", s.Name, first, plan),
+						map[string]interface{}{"scenario": s.Name, "first": first, "plan": plan, "grant_trace": trace, "stacks": s.deadlock})
+				}
+				return
+			}
 			if hung {
-				c.Inconclusive("scenario %s plan %v hung (watchdog)", s.Name, plan)
+				if !s.hungReported {
+					s.hungReported = true
+					c.Inconclusive("scenario %s plan %v hung (watchdog); the rest of the scenario is skipped", s.Name, plan)
+				}
 				return
 			}
 			if seen[trace] {
